@@ -137,7 +137,7 @@ func (c *crashCtx) observeImage(img string) string {
 				app = "check-" + classify(err)
 			}
 		}
-		return fmt.Sprintf("ok %d %s views=%s again=%s append=%s retry=%s", next, fmtMsgs(all), views, again, app, c.retryOpen(img, next, all))
+		return fmt.Sprintf("ok %d %s views=%s again=%s append=%s retry=%s mig=%s", next, fmtMsgs(all), views, again, app, c.retryOpen(img, next, all), c.migrateOpen(img, next, all))
 	}()
 	return res
 }
@@ -571,6 +571,9 @@ func (c *crashCtx) lossImages(w *bufio.Writer, dir string, r *rng, thorough bool
 		if thorough || tag == "all" || r.chance(25) {
 			c.lossAgain(w, img, tag, d)
 		}
+		if thorough || r.chance(20) {
+			c.lossInRecovery(w, img, tag, d)
+		}
 		_ = os.RemoveAll(img)
 	}
 	// everything unsynced lost
@@ -675,4 +678,78 @@ func (c *crashCtx) lossAgain(w *bufio.Writer, img, tag, d string) {
 	}
 	sort.Strings(desc)
 	fmt.Fprintf(w, "loss.img %s+again cuts=%s|%s => %s\n", tag, d, strings.Join(desc, ","), c.observeImage(img2))
+}
+
+// migrateOpen: the crashed directory is opened with Recover *and* eager migration to the other format version
+// (Recover comes with any other options): same content.
+func (c *crashCtx) migrateOpen(img string, next int64, all []klevdb.Message) string {
+	work := filepath.Join(c.root, "mig")
+	_ = os.RemoveAll(work)
+	copyDir(img, work)
+	defer os.RemoveAll(work)
+	// the other version than the head file has
+	target := klevdb.V1
+	ents, _ := os.ReadDir(work)
+	var logs []string
+	for _, e := range ents {
+		if strings.HasSuffix(e.Name(), ".log") {
+			logs = append(logs, e.Name())
+		}
+	}
+	sort.Strings(logs)
+	if len(logs) > 0 && fileVersion(filepath.Join(work, logs[len(logs)-1]), 's') == "1" {
+		target = klevdb.V2
+	}
+	o := c.opts(true)
+	o.Version = klevdb.VersionOptions{NewSegmentsVersion: target, EagerVersionMigrate: true}
+	l, err := klevdb.Open(work, o)
+	if err != nil {
+		return "open-" + classify(err)
+	}
+	defer l.Close()
+	var got []klevdb.Message
+	off := klevdb.OffsetOldest
+	for i := 0; i < 100000; i++ {
+		nxt, ms, err := l.Consume(off, 32)
+		if err != nil {
+			return "scan-" + classify(err)
+		}
+		if len(ms) == 0 && (nxt == off || off < 0) {
+			break
+		}
+		got = append(got, ms...)
+		off = nxt
+	}
+	n2, _ := l.NextOffset()
+	if n2 != next || fmtMsgs(got) != fmtMsgs(all) {
+		return "diff"
+	}
+	return "same"
+}
+
+// lossInRecovery: the process dies *inside* the recovery of a loss image (after any of its file-system steps, and
+// in the middle of its appends); what it leaves is recovered again and judged like any loss image.
+func (c *crashCtx) lossInRecovery(w *bufio.Writer, img, tag, d string) {
+	work := filepath.Join(c.root, "lr")
+	_ = os.RemoveAll(work)
+	copyDir(img, work)
+	defer os.RemoveAll(work)
+	saved, savedNo := c.synced, c.noImg
+	c.synced, c.noImg = map[string]int64{}, false
+	evs := c.tapOp(work, func() {
+		defer func() { _ = recover() }()
+		if l, err := klevdb.Open(work, c.opts(true)); err == nil {
+			_ = l.Close()
+		}
+	})
+	c.synced, c.noImg = saved, savedNo
+	for m, ev := range evs {
+		fmt.Fprintf(w, "loss.img %s+inrec cuts=%s|%s:%s#%d => %s\n", tag, d, ev.kind, baseName(ev.path), m, c.observeImage(ev.img))
+		if ev.kind == "append" && ev.n > 2 {
+			ti := tornImage(c, ev, ev.n/2)
+			fmt.Fprintf(w, "loss.img %s+inrec cuts=%s|%s:%s#%d.t => %s\n", tag, d, ev.kind, baseName(ev.path), m, c.observeImage(ti))
+			_ = os.RemoveAll(ti)
+		}
+		_ = os.RemoveAll(ev.img)
+	}
 }
